@@ -32,20 +32,17 @@ def lit (s : String) : Str := s.toList
 
 def showNat (n : Nat) : Str := Nat.toDigits 10 n
 
-def digitVal (c : Char) : Option Nat :=
-  if '0' ≤ c ∧ c ≤ '9' then some (c.toNat - '0'.toNat) else none
+/-- the value of a non-empty all-digit string (`none` if some character is not an ASCII digit) -/
+def digitsVal (s : Str) : Option Nat :=
+  if s.all Char.isDigit then some (Nat.ofDigitChars 10 s 0) else none
 
-def digitsVal : Str → Option Nat
-  | [] => some 0
-  | s => s.foldl (fun acc c => match acc, digitVal c with
-      | some a, some d => some (a * 10 + d)
-      | _, _ => none) (some 0)
+def stripPlus : Str → Str
+  | '+' :: rest => rest
+  | s => s
 
 /-- `str::parse::<u64>()`: optional `+`, at least one digit, only ASCII digits, below 2^64 -/
 def parseU64 (s : Str) : Option Nat :=
-  let body := match s with
-    | '+' :: rest => rest
-    | _ => s
+  let body := stripPlus s
   if body.isEmpty then none
   else match digitsVal body with
     | some n => if n < W then some n else none
@@ -65,9 +62,7 @@ def parseI64 (s : Str) : Option Int :=
     | some n => if n ≤ 9223372036854775808 then some (-(n : Int)) else none
     | none => none
   | _ =>
-    let body := match s with
-      | '+' :: rest => rest
-      | _ => s
+    let body := stripPlus s
     if body.isEmpty then none else
     match digitsVal body with
     | some n => if n < 9223372036854775808 then some (n : Int) else none
@@ -88,21 +83,28 @@ def hexFixed : Nat → Nat → Str
   | 0, _ => []
   | k + 1, n => hexFixed k (n / 16) ++ [hexDigit (n % 16)]
 
-def hexValue (s : Str) : Option Nat :=
-  s.foldl (fun acc c => match acc, hexVal c with
+/-- value of a string of hex digits, most significant first -/
+def hexValue : Str → Option Nat
+  | [] => some 0
+  | s => s.foldl (fun acc c => match acc, hexVal c with
     | some a, some d => some (a * 16 + d)
     | _, _ => none) (some 0)
 
 /-- `Uuid`'s `Display`: 8-4-4-4-12 lower-case hex -/
 def showUuid (v : Nat) : Str :=
-  let h := hexFixed 32 v
-  h.take 8 ++ ['-'] ++ (h.drop 8).take 4 ++ ['-'] ++ (h.drop 12).take 4 ++ ['-'] ++ (h.drop 16).take 4 ++ ['-'] ++ h.drop 20
+  joinSep ['-'] [hexFixed 8 (v / 16 ^ 24), hexFixed 4 (v / 16 ^ 20), hexFixed 4 (v / 16 ^ 16), hexFixed 4 (v / 16 ^ 12), hexFixed 12 v]
 
+/-- the hyphenated form: 36 characters, `-` at positions 8, 13, 18, 23, hex digits elsewhere —
+    equivalently five `-`-separated groups of 8, 4, 4, 4, 12 hex digits -/
 def parseHyphenated (s : Str) : Option Nat :=
-  if s.length ≠ 36 then none
-  else if s[8]? = some '-' ∧ s[13]? = some '-' ∧ s[18]? = some '-' ∧ s[23]? = some '-' then
-    hexValue (s.take 8 ++ (s.drop 9).take 4 ++ (s.drop 14).take 4 ++ (s.drop 19).take 4 ++ s.drop 24)
-  else none
+  match splitOn '-' s with
+  | [g1, g2, g3, g4, g5] =>
+    if g1.length = 8 ∧ g2.length = 4 ∧ g3.length = 4 ∧ g4.length = 4 ∧ g5.length = 12 then
+      match hexValue g1, hexValue g2, hexValue g3, hexValue g4, hexValue g5 with
+      | some a, some b, some c, some d, some e => some ((((a * 16 ^ 4 + b) * 16 ^ 4 + c) * 16 ^ 4 + d) * 16 ^ 12 + e)
+      | _, _, _, _, _ => none
+    else none
+  | _ => none
 
 def isAscii (s : Str) : Bool := s.all (fun c => c.toNat < 128)
 
@@ -130,13 +132,16 @@ def b32Val (c : Char) : Option Nat :=
   let u := if 'a' ≤ c ∧ c ≤ 'z' then Char.ofNat (c.toNat - 32) else c
   (crockford.idxOf? u)
 
+def b32Value (s : Str) : Option Nat :=
+  s.foldl (fun acc c => match acc, b32Val c with
+    | some a, some d => some (a * 32 + d)
+    | _, _ => none) (some 0)
+
 /-- `Ulid::from_string`: 26 characters of the alphabet (either case); the two bits above 2^128 are
     silently dropped (`value << 5` on a `u128`) -/
 def parseUlid (s : Str) : Option Nat :=
   if !isAscii s ∨ s.length ≠ 26 then none
-  else (s.foldl (fun acc c => match acc, b32Val c with
-    | some a, some d => some ((a * 32 + d) % 2 ^ 128)
-    | _, _ => none) (some 0))
+  else (b32Value s).map (· % 2 ^ 128)
 
 def showId (i : Id) : Str := if i.ulid then showUlid i.val else showUuid i.val
 
